@@ -1,31 +1,41 @@
 /-
-C01 at the level of code tokens: the canonical tokens of a value of the built-in literal types read back to that value.
+C01 (and the evaluation clauses of C08 / C17) at the level of code tokens: the canonical tokens of a value read back to that value.
 -/
 import PP.Proofs.ReaderRT
 import PP.Props.C03
 namespace PP.C01
 open PP Doc Pr Tok
 
-/-- **C01.canon_reads_back** — for every value built from int, float (incl. inf / nan), bool, None, Ellipsis, str, bytes, list,
-tuple, set, frozenset and dict (`inC01`; comments allowed anywhere), the canonical token sequence of its printed form —
-no depth limit, no max_seq_len, insertion order — is read by the reader of `Spec/Reader.lean` (the fragment of Python's
-expression grammar the printers use) as exactly `erase v`: the same container type at every position (a one-element tuple
-keeps its comma, an empty set is `set()`, a frozenset is `frozenset([...])`), the same elements in the same order, dict
-entries in insertion order, strings with the same content and kind, numbers with the same literal text — and nothing is
-left over.  Any fuel ≥ `need v` works. -/
-theorem canon_reads_back (v : PyVal) (hin : inC01 v = true) (ctx : Ctx) (hf : Free ctx) (f : Nat) (hfu : need v ≤ f) :
+/-- **Rd.canon_reads_back** — for every value of the readable fragment `inRd` — int, float (incl. inf / nan), bool, None,
+Ellipsis, str, bytes, list, tuple, set, frozenset, dict, instances of subclasses of all of these, and objects printed through
+`pretty_call` / `pretty_call_alt`, nested in any way, comments allowed anywhere — the canonical token sequence of its printed
+form (no depth limit, no max_seq_len, insertion order) is read by the reader of `Spec/Reader.lean` (the fragment of Python's
+expression grammar the printers use) as exactly `erase v`, and nothing is left over.  Any fuel ≥ `need v` works. -/
+theorem canon_reads_back' (v : PyVal) (hin : inRd v = true) (ctx : Ctx) (hf : Free ctx) (f : Nat) (hfu : need v ≤ f) :
     parseV f (canonW ctx v none) = some (erase v, []) := by
-  have := (canon_reads v hin ctx hf none).reads f hfu []
+  have := (canon_reads v hin ctx hf none (fun _ => rfl)).reads f hfu []
   simpa using this
 
-/-- **C01.output_reads_back** — what `pformat` prints for such a value with default limits off (depth = None,
-max_seq_len = None, sort_dict_keys = False), at any width / ribbon / indent, has — up to the splitting of string literals
-(`TEq`) — a token sequence that reads back to the value.  The step from `TEq`-equal token sequences to equal parses is
-Python's grammar (adjacent literals concatenate, a parenthesised literal run is that literal), not proved here. -/
-theorem output_reads_back (s : Settings) (v : PyVal) (hw : wfVal v) (hin : inC01 v = true)
+/-- **C01.canon_reads_back** — the built-in literal types: the same container type at every position (a one-element tuple
+keeps its comma, an empty set is `set()`, a frozenset is `frozenset([...])`), the same elements in the same order, dict
+entries in insertion order, strings with the same content and kind, numbers with the same literal text. -/
+theorem canon_reads_back (v : PyVal) (hin : inC01 v = true) (ctx : Ctx) (hf : Free ctx) (f : Nat) (hfu : need v ≤ f) :
+    parseV f (canonW ctx v none) = some (erase v, []) :=
+  canon_reads_back' v (inC01_inRd v hin).1 ctx hf f hfu
+
+/-- **C01.output_reads_back'** — what `pformat` prints for a value of the readable fragment with the limits off (depth =
+None, max_seq_len = None, sort_dict_keys = False), at any width / ribbon / indent, has — up to the splitting of string
+literals (`TEq`) — a token sequence that reads back to `erase v`.  The step from `TEq`-equal token sequences to equal parses
+is Python's grammar (adjacent literals concatenate, a parenthesised literal run is that literal), not proved here. -/
+theorem output_reads_back' (s : Settings) (v : PyVal) (hw : wfVal v) (hin : inRd v = true)
     (hd : s.depth = none) (hm : s.maxSeqLen = none) (hs : s.sortKeys = false) :
     ∃ ts, TEq (ctoks (sdocsM s v)) ts ∧ parseV (need v) ts = some (erase v, []) :=
   ⟨canonW s.ctx.norm v none, C03.output_tokens s v hw,
-    canon_reads_back v hin s.ctx.norm ⟨hd, hm, hs⟩ (need v) (Nat.le_refl _)⟩
+    canon_reads_back' v hin s.ctx.norm ⟨hd, hm, hs⟩ (need v) (Nat.le_refl _)⟩
+
+theorem output_reads_back (s : Settings) (v : PyVal) (hw : wfVal v) (hin : inC01 v = true)
+    (hd : s.depth = none) (hm : s.maxSeqLen = none) (hs : s.sortKeys = false) :
+    ∃ ts, TEq (ctoks (sdocsM s v)) ts ∧ parseV (need v) ts = some (erase v, []) :=
+  output_reads_back' s v hw (inC01_inRd v hin).1 hd hm hs
 
 end PP.C01
